@@ -319,7 +319,7 @@ func isLibFrame(path, scratch string) bool {
 		return false
 	}
 	rel := strings.TrimPrefix(path, scratch+"/")
-	return !strings.HasPrefix(rel, "zsim/") && !strings.HasPrefix(rel, "internal/zsimrt/") && !strings.HasPrefix(rel, "internal/zsync/")
+	return !strings.HasPrefix(rel, "zsim/") && !strings.HasPrefix(rel, "internal/zsimrt/") && !strings.HasPrefix(rel, "internal/zsync/") && !strings.HasPrefix(rel, "internal/zatomic/")
 }
 
 var scratchRoot string // set by the orchestrator once the scratch copy exists
